@@ -241,9 +241,9 @@ type WorkerResult struct {
 }
 
 type ViolationReport struct {
-	Violation Violation `json:"violation"`
-	Replay    string    `json:"replay"`
-	Reproduced bool     `json:"reproduced"`
+	Violation  Violation `json:"violation"`
+	Replay     string    `json:"replay"`
+	Reproduced bool      `json:"reproduced"`
 }
 
 // Worker runs the plans of one shard.
